@@ -13,6 +13,7 @@
 package main
 
 import (
+	"context"
 	"crypto/ecdsa"
 	"crypto/elliptic"
 	"crypto/rand"
@@ -27,6 +28,7 @@ import (
 	"strings"
 	"time"
 
+	"github.com/smallstep/linkedca"
 	"go.step.sm/crypto/jose"
 
 	"github.com/smallstep/certificates/authority/config"
@@ -61,6 +63,7 @@ type prepared struct {
 	valid    *x509.Certificate
 	expiring *x509.Certificate
 	mkProv   func() *provisioner.JWK
+	key      *jose.JSONWebKey
 	err      string
 }
 
@@ -117,7 +120,7 @@ func prepare(c Case) prepared {
 	if err != nil {
 		return prepared{c: c, err: "authority"}
 	}
-	p := prepared{c: c, ca: ca, mkProv: mk}
+	p := prepared{c: c, ca: ca, mkProv: mk, key: key}
 	if p.valid, err = issue(ca, key, false); err != nil {
 		p.err = "sign"
 		return p
@@ -171,6 +174,86 @@ func renew(ca *fixture.CA, cert *x509.Certificate, rekey bool) (out string, exp,
 		out = classify(err)
 	}()
 	return out, exp, exp == clock()
+}
+
+// adminPhases drives what an operator does through the admin API once the provisioners live in the
+// database: the provisioner's renewal claims are changed with Authority.UpdateProvisioner (linkedca
+// form -> ProvisionerToCertificates -> collection update), then it is renamed, then removed with
+// Authority.RemoveProvisioner. A certificate issued before the migration (its database record names
+// the ca.json id, which no longer resolves) and one issued after it (record names the database id)
+// are renewed after each step. These are plain gate lines.
+func adminPhases(out *common.Out, p prepared, ca *fixture.CA) {
+	js, _ := json.Marshal(p.c)
+	tail := " case=x" + hex.EncodeToString(js)
+	ctx := context.Background()
+	adb := ca.Auth.GetAdminDatabase()
+	if adb == nil {
+		out.Case("gate mode=coded op=renew rev=no db=gone ext=gone nyv=0 exp=0 phase=admin"+tail, "setup-failed:noadmindb")
+		return
+	}
+	provs, err := adb.GetProvisioners(ctx)
+	var lp *linkedca.Provisioner
+	for _, x := range provs {
+		if x.Name == provName {
+			lp = x
+		}
+	}
+	if err != nil || lp == nil {
+		out.Case("gate mode=coded op=renew rev=no db=gone ext=gone nyv=0 exp=0 phase=admin"+tail, "setup-failed:noprov")
+		return
+	}
+	after, err := issue(ca, p.key, false)
+	if err != nil {
+		out.Case("gate mode=coded op=renew rev=no db=gone ext=gone nyv=0 exp=0 phase=admin"+tail, "setup-failed:sign-after-migration")
+		return
+	}
+	renewBoth := func(phase, dbOld, dbNew, ext string) {
+		for k, cert := range []*x509.Certificate{p.valid, p.expiring, after} {
+			if cert == nil {
+				continue
+			}
+			res, exp, stable := renew(ca, cert, k == 1)
+			if !stable {
+				continue
+			}
+			dbf := dbOld
+			if cert == after {
+				dbf = dbNew
+			}
+			op := "renew"
+			if k == 1 {
+				op = "rekey"
+			}
+			out.Case(fmt.Sprintf("gate mode=coded op=%s rev=no db=%s ext=%s nyv=0 exp=%s phase=%s%s", op, dbf, ext, common.B(exp), phase, tail), res)
+		}
+	}
+	// 1. flip the flags through the admin API
+	cur := lp.Claims != nil && lp.Claims.DisableRenewal
+	if lp.Claims == nil {
+		lp.Claims = &linkedca.Claims{}
+	}
+	lp.Claims.DisableRenewal, lp.Claims.AllowRenewalAfterExpiry = !cur, true
+	if err := ca.Auth.UpdateProvisioner(ctx, lp); err != nil {
+		out.Case("gate mode=coded op=renew rev=no db=gone ext=gone nyv=0 exp=0 phase=admin"+tail, "setup-failed:update")
+		return
+	}
+	ctl := fmt.Sprintf("ctl:%s1n", common.B(!cur))
+	renewBoth("updated", "gone", ctl, ctl)
+	// 2. and back, plus a rename: the record (id) still resolves, the extension (name) no longer does
+	lp.Claims.DisableRenewal, lp.Claims.AllowRenewalAfterExpiry = cur, false
+	lp.Name = provName + "-renamed"
+	if err := ca.Auth.UpdateProvisioner(ctx, lp); err != nil {
+		out.Case("gate mode=coded op=renew rev=no db=gone ext=gone nyv=0 exp=0 phase=admin"+tail, "setup-failed:rename")
+		return
+	}
+	ctl = fmt.Sprintf("ctl:%s0n", common.B(cur))
+	renewBoth("renamed", "gone", ctl, "gone")
+	// 3. remove it
+	if err := ca.Auth.RemoveProvisioner(ctx, lp.Id); err != nil {
+		out.Case("gate mode=coded op=renew rev=no db=gone ext=gone nyv=0 exp=0 phase=admin"+tail, "setup-failed:remove")
+		return
+	}
+	renewBoth("removed", "gone", "gone", "gone")
 }
 
 func fixedCases() []Case {
@@ -316,6 +399,7 @@ func main() {
 			continue
 		}
 		emit(p, "restarted", re)
+		adminPhases(out, p, re)
 		re.Auth.Shutdown()
 		os.RemoveAll(dir)
 	}
